@@ -2,6 +2,7 @@
    Property theorems only (proved in Clnt/ClntProofs.v). [k] is the size of the
    tag pool; the real client has k = 65535 (cinit = cinit_n (N.to_nat c_NOTAG)). *)
 From Coq Require Import NArith List Bool.
+From V9 Require Shape.ShapeLib Shape.PViews Recv.Views.
 From V9 Require Import Lib.GoSem Gen.Consts Clnt.Model Clnt.ClntProofs.
 Import ListNotations.
 
@@ -67,3 +68,21 @@ Example C09_nonvacuous :
      LNewCall false None; LAlloc 2]%N = Some s /\
     map c_res (callers s) = [Some (RRerr 1); Some (ROk 0); None] /\ cache s = [1%N] /\ length (pool s) = 38.
 Proof. eexists. vm_compute. repeat split. Qed.
+
+
+(* ---- the receive buffer as memory (Recv/Views.v): Unpack does not copy, what is handed on keeps slices into
+   the receive buffer. For any reads, deliveries and reallocations no byte that arrives later overwrites a
+   delivered message; compacting inside the buffer (seeded changes C09c, C13a, C14a) is refuted; and in the
+   CURRENT source every copy in a receive loop goes into a freshly allocated buffer ---- *)
+Theorem C09_delivered_messages_never_overwritten : forall ls c s,
+  Views.run false (Views.init c) ls = Some s -> Views.clobbered s = false.
+Proof. exact Views.delivered_messages_never_overwritten. Qed.
+Print Assumptions C09_delivered_messages_never_overwritten.
+
+Theorem C09_compaction_refuted : exists ls s, Views.run true (Views.init 64) ls = Some s /\ Views.clobbered s = true.
+Proof. exact Views.compaction_refuted. Qed.
+Print Assumptions C09_compaction_refuted.
+
+Theorem C09_source_never_compacts_a_receive_buffer : ShapeLib.recv_never_compacts = true.
+Proof. exact PViews.recv_never_compacts_ok. Qed.
+Print Assumptions C09_source_never_compacts_a_receive_buffer.
